@@ -21,6 +21,12 @@ use byteorder::{LittleEndian, ReadBytesExt};
 use crate::version::Version;
 use crate::{Error, RtMessage, Tag, MAX_REQUEST_LENGTH, MIN_REQUEST_LENGTH, REQUEST_FRAMING_BYTES};
 
+/// Length (in bytes) of the nonce in a classic (Google) request
+const CLASSIC_NONCE_LENGTH: usize = 64;
+
+/// Length (in bytes) of the nonce in an IETF request
+const RFC_NONCE_LENGTH: usize = 32;
+
 /// Guess which protocol the request is using and extract the client's nonce from the request
 pub fn nonce_from_request(
     buf: &[u8],
@@ -48,8 +54,8 @@ fn is_rfc_request(buf: &[u8]) -> bool {
 fn nonce_from_classic_request(buf: &[u8]) -> Result<(Vec<u8>, Version), Error> {
     let msg = RtMessage::from_bytes(buf)?;
     match msg.get_field(Tag::NONC) {
-        Some(nonce) => Ok((nonce.to_vec(), Version::Google)),
-        None => Err(Error::InvalidRequest),
+        Some(nonce) if nonce.len() == CLASSIC_NONCE_LENGTH => Ok((nonce.to_vec(), Version::Google)),
+        _ => Err(Error::InvalidRequest),
     }
 }
 
@@ -78,8 +84,8 @@ fn nonce_from_rfc_request(buf: &[u8], expected_srv: &[u8]) -> Result<(Vec<u8>, V
     }
 
     match msg.get_field(Tag::NONC) {
-        Some(nonce) => Ok((nonce.to_vec(), version.unwrap())),
-        None => Err(Error::InvalidRequest),
+        Some(nonce) if nonce.len() == RFC_NONCE_LENGTH => Ok((nonce.to_vec(), version.unwrap())),
+        _ => Err(Error::InvalidRequest),
     }
 }
 
